@@ -2207,6 +2207,32 @@ XSLTEngineImpl::cloneToResultTree(
         case XalanNode::ATTRIBUTE_NODE:
             if (isElementPending() == true)
             {
+                // If the attribute is in a namespace, and its prefix is
+                // not declared in the result tree, then the namespace
+                // node for the prefix has to be copied as well.
+                const XalanDOMString&   theNamespace = node.getNamespaceURI();
+                const XalanDOMString&   thePrefix = node.getPrefix();
+
+                if (theNamespace.empty() == false &&
+                    thePrefix.empty() == false &&
+                    equals(thePrefix, DOMServices::s_XMLString) == false &&
+                    getResultNamespaceForPrefix(thePrefix) == 0)
+                {
+                    const ECGetCachedString     theGuard(*m_executionContext);
+
+                    XalanDOMString&     theDeclaration = theGuard.get();
+
+                    theDeclaration.assign(DOMServices::s_XMLNamespaceWithSeparator);
+                    theDeclaration.append(thePrefix);
+
+                    addResultAttribute(
+                        getPendingAttributesImpl(),
+                        theDeclaration,
+                        theNamespace,
+                        true,
+                        locator);
+                }
+
                 addResultAttribute(
                         getPendingAttributesImpl(),
                         node.getNodeName(),
